@@ -633,17 +633,21 @@ impl<'t> Interp<'t> {
         let c = op.a[0] as usize % carriers.len();
         let len = op.a[3] as usize % 200;
         let mut req = TypedReq { method: op.a[1] as u8, ty: op.a[2] as u8, len, try_: op.a[4] & 1 == 1, panic_at: op.panic_at, seed: op.a[5] as u8 };
-        if !req.try_ && !self.panicking_safe(len * 16 + 64) {
+        if !req.try_ && !self.panicking_safe(len * 16 + 4096) {
             req.try_ = true;
         }
         let before = self.last.clone();
+        self.stats.bump(&format!("typed.method{:02}", req.method % 22));
         heap::with(0, |h| h.begin_op(self.cur_op as u32 + 1, if op.fail_nth != 0 { Some(op.fail_nth) } else { None }, op.burst));
         let r = catch_unwind(AssertUnwindSafe(|| arena.typed(c, &req)));
         heap::with(0, |h| h.end_op());
         let mut ok = false;
+        let mut extras: Vec<Extra> = Vec::new();
+        let mut eff = Effect::Grows;
         match r {
-            Ok(TypedRes::Block { ptr, len, align, expect }) => {
+            Ok(TypedRes::Block { ptr, len, align, expect, extra }) => {
                 ok = true;
+                extras = extra;
                 let snap = arena.snap();
                 self.check_new_block(arena, ptr, len, expect.len(), align, &snap, false);
                 if len > 0 && self.in_bounds(&snap, ptr, len) {
@@ -651,7 +655,7 @@ impl<'t> Interp<'t> {
                         let got = unsafe { std::slice::from_raw_parts(ptr, len.min(expect.len())) };
                         if got != &expect[..got.len()] {
                             let class = if self.on.c02 { "C02/typed-contents" } else { "C01/typed-contents" };
-                            self.viol(class, format!("typed allocation method {} type {}: contents differ from what was stored", req.method, req.ty));
+                            self.viol(class, format!("typed allocation method {} type {}: contents differ from what was stored", req.method % 22, req.ty % 8));
                         }
                     }
                     let id = self.new_block(ptr, len, len, align, None);
@@ -659,14 +663,29 @@ impl<'t> Interp<'t> {
                 }
                 self.stats.bump("typed.ok");
             }
+            Ok(TypedRes::WrongLen { got, want }) => {
+                if self.on.c01 || self.on.c02 {
+                    self.viol(if self.on.c01 { "C01/typed-length" } else { "C02/typed-length" }, format!("typed slice allocation (method {}) handed out {got} elements for {want}", req.method % 22));
+                }
+            }
+            Ok(TypedRes::Nothing) => {
+                ok = true;
+                eff = Effect::Rewinds;
+            }
             Ok(TypedRes::Failed) => self.failed_call("typed try_ allocation", None, false),
-            Ok(TypedRes::ClosureErr) => {
+            Ok(TypedRes::ClosureErr { extra }) => {
                 let snap = arena.snap();
                 self.stats.probe("typed.closure_err");
-                if self.on.c03 {
-                    let m = self.mark(&before);
-                    self.check_scope_restore(&m, &snap, "alloc_try_with Err");
+                if extra.is_empty() {
+                    // the closure left no allocations of its own: the arena must be exactly where it was
+                    if self.on.c03 {
+                        let m = self.mark(&before);
+                        self.check_scope_restore(&m, &snap, "alloc_try_with Err");
+                    }
+                } else {
+                    self.stats.probe("typed.closure_err_with_inner_allocation");
                 }
+                extras = extra;
             }
             Ok(TypedRes::Unsupported) => return,
             Err(p) => match classify_panic(p) {
@@ -675,13 +694,29 @@ impl<'t> Interp<'t> {
                 Caught::Library(m) => {
                     if req.try_ {
                         self.failed_call("typed try_ allocation", Some(m), false)
-                    } else {
+                    } else if !m.contains("capacity overflow") {
                         self.viol(&format!("{}/panicking-method-unexpected-panic", self.trace.prop), format!("typed allocation panicked: {m}"));
                     }
                 }
             },
         }
-        self.post(arena, &before, Effect::Grows, "typed allocation", None, ok);
+        // allocations the closure of alloc_try_with made are live blocks of their own
+        if !extras.is_empty() {
+            let snap = arena.snap();
+            for (ptr, len, align, tag) in extras {
+                self.check_new_block(arena, ptr, len, len, align, &snap, true);
+                if self.in_bounds(&snap, ptr, len) {
+                    if self.on.c02 {
+                        if let Some(i) = (0..len).find(|&i| unsafe { ptr.add(i).read() } != tag) {
+                            self.viol("C02/live-block-changed", format!("a block allocated inside the closure of alloc_try_with was overwritten at +{i}"));
+                        }
+                    }
+                    let id = self.new_block(ptr, len, len, align, None);
+                    fill(ptr, id, 0, len);
+                }
+            }
+        }
+        self.post(arena, &before, eff, "typed allocation", None, ok);
     }
 
     // ---------------------------------------------------------------- the claimed original handle (C14)
